@@ -110,8 +110,10 @@ def check(ctx):
     if large is not None and large[1] == ("attr", SELF, "fit"):
         cl = large[2][0]
         txt = ir.show(cl, maxdepth=10)
-        m = re.search(r"\.query\('n >= @(\w+)'\)", txt)
-        sel_ok = bool(m) and s.env.get(m.group(1)) in (T, ("call", ("global", "min"), (ncal, ("const", 10)), ()))
+        # the selection of the large groups: rows of the count table with n >= the same threshold (query string or mask: one term)
+        THR = (T, ("call", ("global", "min"), (ncal, ("const", 10)), ()))
+        sel_ok = any(x[0] == "sub" and x[2][0] == "cmp" and x[2][1] == ">=" and x[2][3] in THR
+                     and x[2][2] in (("attr", x[1], "n"), ("sub", x[1], ("const", "n"))) for x in ir.walk(cl))
         join_ok = ".merge(conformalization_data, how='inner', on=aggregate)" in txt and txt.endswith(".drop(columns=['n'])")
         semi = all(x[0] == "call" and ir.show(x[1]).endswith("semi_join") and x[2][1] == cl and _kw(x, "on") == AGG for x in large[2][1:3])
         rn = semi and large[2][1][2][0] == ("param", "reporting_units") and large[2][2][2][0] == ("param", "nonreporting_units")
@@ -358,10 +360,12 @@ def check(ctx):
             okrb = (RB[0] == "call" and RB[1][0] == "attr" and RB[1][2] == "reset_index" and RB[1][1][0] == "sub" and RB[1][1][1] == ("attr", BOUNDS, "iloc")
                     and ".query(\"_merge != 'both'\").index" in rbt.replace("'_merge != \\'both\\''", "\"_merge != 'both'\"") or "_merge != " in rbt)
             idx = RB[1][1][2] if RB[0] == "call" and RB[1][1][0] == "sub" else None
-            okrb = (idx is not None and idx[0] == "attr" and idx[2] == "index" and idx[1][0] == "call" and idx[1][1][2] == "query"
-                    and idx[1][2][0] == ("const", "_merge != 'both'") and idx[1][1][1][0] == "call" and idx[1][1][1][1] == ("attr", BOUNDS, "merge")
-                    and idx[1][1][1][2][0] == PREV_IN and _kw(idx[1][1][1], "how") == ("const", "left") and _kw(idx[1][1][1], "on") == AGG
-                    and _kw(idx[1][1][1], "indicator") == ("const", True) and RB[1][1][1] == ("attr", BOUNDS, "iloc"))
+            okrb = False
+            if idx is not None and idx[0] == "attr" and idx[2] == "index" and idx[1][0] == "sub" and idx[1][2][0] == "cmp":
+                mg, cm = idx[1][1], idx[1][2]
+                not_both = cm[1] == "!=" and cm[3] == ("const", "both") and cm[2] in (("attr", mg, "_merge"), ("sub", mg, ("const", "_merge")))
+                okrb = (not_both and mg[0] == "call" and mg[1] == ("attr", BOUNDS, "merge") and mg[2][0] == PREV_IN and _kw(mg, "how") == ("const", "left")
+                        and _kw(mg, "on") == AGG and _kw(mg, "indicator") == ("const", True) and RB[1][1][1] == ("attr", BOUNDS, "iloc"))
             ctx.ob("C15.R3.remaining-bounds", f"{af.qualname}|remaining bounds = groups not matched so far", okrb, af.where(),
                    "remaining bounds are the groups of `bounds` without a row in the matched set (left join + indicator != both)" if okrb
                    else "remaining bounds are not 'all groups minus the groups matched so far'")
